@@ -46,7 +46,7 @@ func c14NoAppendToInput(c *Ctx, p *Program) {
 					continue
 				}
 				n++
-				src := inputOrigin(call.Call.Args[arg0], 0)
+				src := inputOrigin(p, call.Call.Args[arg0], 0)
 				key := fmt.Sprintf("%s:append#%d", FnName(fn), n)
 				c.Func(FnName(fn))
 				c.Check(src == "", "W5-no-append-to-input", key, p.Pos(call.Pos()), "append extends a buffer the function owns",
@@ -65,31 +65,52 @@ func startsWith(s, pre string) bool { return len(s) >= len(pre) && s[:len(pre)] 
 
 // inputOrigin: "" when the slice is a buffer of the function's own (nil, make, a literal, a previous
 // append to such a buffer), otherwise a description of the parameter or field it comes from.
-func inputOrigin(v ssa.Value, depth int) string {
+func inputOrigin(p *Program, v ssa.Value, depth int) string {
 	if depth > 8 {
 		return ""
 	}
 	switch x := v.(type) {
 	case *ssa.Parameter:
+		// the buffer parameter of an unexported append-style helper: what its callers hand it
+		fn := x.Parent()
+		if fn != nil && fn.Object() != nil && !fn.Object().Exported() && fn.Parent() == nil {
+			idx := -1
+			for i, q := range fn.Params {
+				if q == x {
+					idx = i
+				}
+			}
+			if nd := p.CallGraph().Nodes[fn]; nd != nil && len(nd.In) > 0 && idx >= 0 {
+				for _, e := range nd.In {
+					if e.Site == nil || idx >= len(e.Site.Common().Args) {
+						return "parameter " + x.Name()
+					}
+					if s := inputOrigin(p, e.Site.Common().Args[idx], depth+2); s != "" {
+						return s
+					}
+				}
+				return ""
+			}
+		}
 		return "parameter " + x.Name()
 	case *ssa.Const, *ssa.MakeSlice:
 		return ""
 	case *ssa.Slice:
 		// a reslice of an own array (stack buffer) is owned; of an input is not
-		return inputOrigin(x.X, depth+1)
+		return inputOrigin(p, x.X, depth+1)
 	case *ssa.Alloc:
 		return ""
 	case *ssa.Call:
 		if bi, ok := x.Call.Value.(*ssa.Builtin); ok && bi.Name() == "append" {
-			return inputOrigin(x.Call.Args[0], depth+1)
+			return inputOrigin(p, x.Call.Args[0], depth+1)
 		}
 		if cal := x.Call.StaticCallee(); cal != nil && cal.Pkg != nil && cal.Pkg.Pkg.Path() == "encoding/binary" && startsWith(cal.Name(), "AppendUint") && len(x.Call.Args) >= 2 {
-			return inputOrigin(x.Call.Args[1], depth+1)
+			return inputOrigin(p, x.Call.Args[1], depth+1)
 		}
 		return ""
 	case *ssa.Phi:
 		for _, e := range x.Edges {
-			if s := inputOrigin(e, depth+1); s != "" {
+			if s := inputOrigin(p, e, depth+1); s != "" {
 				return s
 			}
 		}
@@ -103,7 +124,7 @@ func inputOrigin(v ssa.Value, depth int) string {
 			if al, ok := x.X.(*ssa.Alloc); ok {
 				for _, ref := range *al.Referrers() {
 					if s, ok := ref.(*ssa.Store); ok && s.Addr == ssa.Value(al) {
-						if o := inputOrigin(s.Val, depth+1); o != "" {
+						if o := inputOrigin(p, s.Val, depth+1); o != "" {
 							return o
 						}
 					}
